@@ -177,7 +177,7 @@ func Ciphers(sender crypto.Side) (enc, dec crypto.Cipher) {
 // bounds of the statement (12, 1024, divisibility by 4, sign), feeds it to the receiving cipher,
 // runs the monitor (an accepted frame must have 12..1024 bytes of padding and a non-negative
 // length divisible by 4; a frame within the bounds must be accepted) and queues the model comparison.
-func CraftedFrame(c *hc.Ctx, q *Queue, prop string) {
+func CraftedFrame(c *hc.Ctx, q *Queue, rt *Retainer, prop string) {
 	r := c.Rng
 	key := GenKey(r)
 	ak := key.WithID()
@@ -236,6 +236,19 @@ func CraftedFrame(c *hc.Ctx, q *Queue, prop string) {
 		c.Fail("rejected-message-yields-data", line, detail)
 	}
 	q.Add(line, ShowDecrypt(got, err))
+	KeepDecrypted(rt, line, got)
+}
+
+// KeepDecrypted retains an accepted *EncryptedMessageData exactly as returned (header fields and the
+// slice it holds), to be re-read after later calls.
+func KeepDecrypted(rt *Retainer, line string, got *crypto.EncryptedMessageData) {
+	if rt == nil || got == nil {
+		return
+	}
+	rt.Keep("DecryptFromBuffer", line, func() []byte {
+		return append(Header(uint64(got.Salt), uint64(got.SessionID), uint64(got.MessageID), uint32(got.SeqNo), uint32(got.MessageDataLen)),
+			got.MessageDataWithPadding...)
+	})
 }
 
 func ShowDecryptShort(d *crypto.EncryptedMessageData, err error) string {
